@@ -1621,6 +1621,16 @@ func (g *gen) watchScenario() [][]Action {
 	if g.r.Chance(1, 4) {
 		t.Launch = []Action{{K: aSpawn, Spec: &Spec{Name: 1, Prelaunch: true}}} // the termination has to wait for a grandchild
 	}
+	if g.watchK%3 != 2 {
+		// Watch requests that reach the target while it is in its own stop (or restart) sequence, not running any more but
+		// not terminated either: (a) the grandchild, when it handles the kill the stopping target passed on, watches its
+		// parent - its Watch and its own termination notice reach the target in this order (one sender), so the target
+		// handles the Watch in state killing with a live descendant; (b) the target's own OnKill handler (it runs after the
+		// kill was passed on) tells watcher 2 to watch it. The requester must be registered and hear of the termination
+		// when it really happens - not be told "terminated" at once while the path is still registered
+		t.Launch = []Action{{K: aSpawn, Spec: &Spec{Name: 1, Prelaunch: true, Kill: []Action{{K: aWatch, R: RX{K: 1}}}}}}
+		t.Kill = []Action{{K: aTell, R: RX{K: 4, P: []uint64{1, 2}}, Tag: g.tag(), Acts: []Action{{K: aWatch, R: RX{K: 4, P: tp}}}}}
+	}
 	nW := 1 + g.r.Intn(3)
 	var decs []int
 	for i := 0; i < 1+g.r.Intn(3); i++ {
